@@ -351,6 +351,17 @@ class Runner:
         return y, caps
 
     def run(self):
+        try:
+            return self._run()
+        finally:
+            # whatever this history leaked must not reach the next one run by this process
+            for reg, keep in ((tmod._global_forward_pre_hooks, self._pre0), (tmod._global_forward_hooks, self._post0)):
+                for k in [k for k in reg if k not in keep]:
+                    del reg[k]
+
+    def _run(self):
+        self._pre0 = set(tmod._global_forward_pre_hooks)
+        self._post0 = set(tmod._global_forward_hooks)
         self.post({"act": "Init", "arch": self.sk["arch"] if isinstance(self.sk["arch"], dict) else list(self.sk["arch"]), "dtype": self.dtype_name, "nested": self.nested})
         for a in self.sk["prog"]:
             ev = {"act": a["a"], "args": a, "outcome": "ok"}
@@ -403,6 +414,12 @@ class Runner:
 
     def do_EnterCalib(self, a, ev):
         c = Calibration(momentum=MOM[a["momentum"]], streamline=bool(a["streamline"]))
+        c.__enter__()
+        self.ctxs.append(c)
+
+    def do_ReEnterCalib(self, a, ev):
+        # the innermost open Calibration object is entered once more (`with c: ... with c: ...`)
+        c = self.ctxs[-1]
         c.__enter__()
         self.ctxs.append(c)
 
